@@ -5,7 +5,7 @@ bound, evaluated on 12 transactions (boundary amounts, month and year boundaries
 date / fields) with supplemental rows, by the real evaluator and by an independent reference interpreter
 (mc/ref/expr.py: translation to Python evaluated by Python itself).  Where the reference is defined the
 values must be identical.  Independently of the reference, equivalence laws are checked on every pair of
-a 28-element Boolean basis x every transaction: double negation, De Morgan (both), commutation of
+a 30-element Boolean basis x every transaction: double negation, De Morgan (both), commutation of
 error-free and/or operands, a<b<c == (a<b and b<c), invariance under ASCII letter-case changes of string
 literals / description / function, variable, txn. and field. names, short-circuit with an erroring right
 operand, left-to-right order observable through :=, and agreement of evaluate_transaction with
@@ -21,7 +21,7 @@ from mc.ref import expr as REF
 PROPERTY = "C04"
 LEVEL = "exploration"
 RULE = ("cases = chunks of (a) all expressions of the typed grammar with <= K operators (K=2 quick, 3 thorough; layered Bool/Num/Str/Rows sets, see bounds), "
-        "each on 12 transactions vs the reference interpreter, and (b) law instances over all ordered pairs / triples of a 28-element Boolean basis. "
+        "each on 16 transactions vs the reference interpreter (and again without variables / supplemental sources), and (b) law instances over all ordered pairs / triples of a 30-element Boolean basis. "
         "non-trivial = (expression, transaction) pairs on which the reference is defined (no error) - for laws: instances where both sides evaluate; "
         "expressions are de-duplicated as strings")
 ASSUMPTIONS = ["reference clauses are those of DESIGN.md section 4/C04 (documented tables; Python semantics for the Python-like constructs)",
